@@ -103,6 +103,25 @@ READ_SET = {
     "Binding::program_", "CFGNode::program_", "Variable::program_",
     "CFGNode::outgoing_",
 }
+EXPLANATION += (
+    " R8.7 (rules/c08_derived_cache.py): a value memoised inside a graph record "
+    "is dropped by every writer of the state it was computed from. A field of "
+    "CFGNode / Binding / Origin / Variable / Program written through `this` in "
+    "a const method is a memo (it has to be `mutable`); the fields written by "
+    "that method form the memo group (value and validity flag), the other "
+    "fields of the record it reads are the sources. Every function of the "
+    "typegraph (constructors excepted) that writes a source - container "
+    "mutators and map operator[] count as writes, `m[k]` under `if "
+    "(ContainsKey(m, k))` does not - must write a field of the group in its own "
+    "body or in a function it calls directly; invalidating only in some of the "
+    "writers (where a new binding is created, but not where "
+    "RegisterBindingAtNode adds a node for an existing binding) is a violation: "
+    "the history query / mutate / query is answered from the stale value. "
+    "Records without such a field yield one `memo-free` instance each. Blind "
+    "spots: a memo kept outside the record (in the solver: R8.1-R8.5), a memo "
+    "filled by a non-const method, sources reached through another object, "
+    "and whether the write to the group really resets it (any write counts).")
+
 GRAPH_RECORDS = ("CFGNode", "Binding", "Origin", "Variable", "Program")
 INV = "Program::InvalidateSolver()"
 QUERY = "Program::GetSolver()"
